@@ -1,3 +1,4 @@
+import Varint.Bridge.DictH
 import Varint.Bridge.RLE
 import Varint.Bridge.Tagged
 import Varint.Lemmas.Fuel
@@ -401,5 +402,20 @@ theorem bp128_fuel_adequate (bs : List Nat) (cap cnt n1 f : Nat) :
 theorem search_fuel_adequate (d : List Nat) (x f : Nat) (hf : d.length < f) :
     Dict.bsearch d.toArray x f 0 d.length = Dict.find d x :=
   Dict.find_fuel_suffices d x f hf
+
+
+/-- **the overflow guard in front of the dictionary decoders' allocation sizes, on the translated C**
+    (`size_mul_overflow` of src/varintDict.c): for all 64-bit operands it reports an overflow exactly when the true
+    product does not fit 64 bits, so a size computed from an untrusted count is either refused or the mathematical
+    product — never a wrapped, too-small request -/
+theorem c_dict_size_guard_exact (a b : Nat) (ha : a < 2 ^ 64) (hb : b < 2 ^ 64) :
+    (a * b < 2 ^ 64 → Varint.Gen.C.dictMulOverflow a b = (0, some (a * b))) ∧
+    (2 ^ 64 ≤ a * b → (Varint.Gen.C.dictMulOverflow a b).1 = 1) := by
+  have h := Varint.Bridge.DictH.dictMulOverflow_eq a b ha hb
+  constructor
+  · intro hlt
+    rw [h, if_pos hlt, Nat.mod_eq_of_lt hlt]
+  · intro hge
+    rw [h, if_neg (by omega)]
 
 end Varint.Props.C14
